@@ -44,7 +44,9 @@ ANCHORS = [("PatternRewriteWalker", "rewrite_region"), ("PatternRewriteWalker", 
 
 
 def plan(tier, seed):
+    import os
     n, per = SHARDS[tier]
+    per = int(os.environ.get("C11_PER_SHARD", per))  # self-test runs only (smaller mutant runs)
     return [{"kind": "cases", "first": (seed * 1_000_003 + i) * per, "n": per, "size": tier} for i in range(n)]
 
 
